@@ -82,6 +82,11 @@ func newClientState(l lane.Lane, client RedisClient, dispatcher *cmdDispatcher) 
 	defer clientsMu.Unlock()
 	clientId++
 	cs.id = clientId
+	if cc, isCxn := client.(*clientCxn); isCxn {
+		// the connection must know its state before other connections can find
+		// it in the registry (CLIENT KILL calls back into it)
+		cc.cs = cs
+	}
 	clients[clientId] = cs
 
 	simBeforeLock(&infoMu, "infoMu")
